@@ -129,6 +129,16 @@ Section C09.
     setitem pycast arrcast infer itemseq_exn (KName name) value s = setattr_var pycast arrcast name value s.
   Proof. exact (strict_updates_keep_working pycast arrcast infer itemseq_exn name value hint s). Qed.
 
+  (* the values setter is reached whenever the guard does not fire (strict off, or 'values' already registered);
+     the remaining case is the kept finding C09_strict_values_setter_blocked_refuted *)
+  Theorem C09_values_setter_reached value hint s :
+    mem "values" (index s) = false ->
+    strict s = false \/ reg_mem "values" (registry s) = true ->
+    snd (setattr pycast arrcast infer "values" value hint s) = snd (values_setter pycast arrcast infer value s) /\
+    vars (fst (setattr pycast arrcast infer "values" value hint s)) = vars (fst (values_setter pycast arrcast infer value s)) /\
+    index (fst (setattr pycast arrcast infer "values" value hint s)) = index (fst (values_setter pycast arrcast infer value s)).
+  Proof. exact (values_setter_reached pycast arrcast infer value hint s). Qed.
+
   Theorem C09_whole_series_ignores_strict name value s b :
     setattr_var pycast arrcast name value (set_strict s b) =
     (set_strict (fst (setattr_var pycast arrcast name value s)) b, snd (setattr_var pycast arrcast name value s)).
@@ -161,6 +171,12 @@ Theorem C09_unknown_name_accepted_refuted :
     registry (fst (np_step (SetItem (KLabel "attributes" l) v) s)) <> registry s.
 Proof. exact unknown_name_accepted_refuted. Qed.
 
+Theorem C09_strict_values_setter_blocked_refuted :
+  exists s v, Inv s /\ strict s = true /\ mem "values" (index s) = false /\
+    np_step (SetAttr "values" v None) s = (s, Raise AttributeError) /\
+    snd (np_step (SetAttr "values" v None) (set_strict s false)) = Ret tt.
+Proof. exact strict_values_setter_blocked_refuted. Qed.
+
 Print Assumptions C09_inv_unfolded.
 Print Assumptions C09_inv_init_container.
 Print Assumptions C09_inv_init_model.
@@ -186,6 +202,8 @@ Print Assumptions C09_add_variable_ignores_strict.
 Print Assumptions C09_failed_single_assignment_np.
 Print Assumptions C09_partial_write_refuted.
 Print Assumptions C09_unknown_name_accepted_refuted.
+Print Assumptions C09_strict_values_setter_blocked_refuted.
+Print Assumptions C09_values_setter_reached.
 Print Assumptions w0_inv.
 Print Assumptions strict_hypotheses_satisfiable.
 Print Assumptions m0_inv.
